@@ -6,7 +6,13 @@ use std::fmt::Debug;
 #[derive(Debug, Clone, PartialEq, Eq)]
 pub struct Num(pub u64);
 
+/// set by the history re-execution (run.rs): the next extern call panics, as a buggy user function would
+pub static PANIC_NOW: std::sync::atomic::AtomicBool = std::sync::atomic::AtomicBool::new(false);
+
 pub(crate) fn ext_impl(f: &str, s: &str, u: u64) -> Result<(String, usize, Option<u64>), &'static str> {
+    if PANIC_NOW.load(std::sync::atomic::Ordering::SeqCst) {
+        panic!("probe: user function panicked");
+    }
     match f {
         "ext_probe" => Ok((String::new(), 0, None)),
         "ext_ident" => {
